@@ -58,6 +58,7 @@ type scenario struct {
 	idle    bool // restart twice without traffic after a crash
 	cluster bool
 	stall   int  // cluster: the transaction of this unit (0-based, 0 = none) is held back ~130 ms before the target sees its first command
+	otherDb bool // the (standalone) target holds a key of its own in another database
 	filter  bool // a key filter is configured (prefix black list "drop:"): multi-key commands are forwarded restricted to the accepted keys
 	nostart bool // skip the start-up recovery (16384 slot reads on a cluster): C18 cases only judge admission
 }
@@ -300,6 +301,7 @@ func genScenario(r *hx.Rng, id int, maxUnits int, cluster bool, refuse string) *
 			add([]byte("PING"))
 		}
 	}
+	sc.otherDb = !cluster && r.Chance(35)
 	if cluster && len(sc.units) >= 3 && sc.mode == "parallel" && r.Chance(60) {
 		sc.stall = 1 + r.Intn(len(sc.units)-2)
 	}
@@ -675,6 +677,16 @@ func (rn *runner) run(crashAfter int) (died bool, cont bool) {
 		}
 		time.Sleep(300 * time.Microsecond)
 	}
+	if refusing && !ended && !rn.tg.crashed() {
+		// the replay has to stop by itself at the unroutable unit; a loaded machine may need longer than the polling window,
+		// and a verdict must not rest on a time-out of the harness
+		select {
+		case sendErr = <-done:
+			ended = true
+		case <-time.After(90 * time.Second):
+			// 94 s without an answer: the replay is not going to refuse (it is waiting for more input)
+		}
+	}
 	if !ended && !rn.tg.crashed() {
 		// everything applied: let the run end the way a stopped source ends it (coordinator flush included)
 		feed.CloseWith(io.EOF)
@@ -776,6 +788,12 @@ func runScenario(sc *scenario, tr *hx.Trace) (recv int, reqs int) {
 		srv.RealClock = true
 		if _, err := srv.Start(); err != nil {
 			hx.Fatal("%v", err)
+		}
+		if sc.otherDb {
+			// the site's own applications use another database of the target as well
+			srv.Lock()
+			srv.DBs[3] = fakeredis.DB{"app:own": &fakeredis.Value{Type: "string", Str: []byte("x")}}
+			srv.Unlock()
 		}
 		tg.srv = srv
 	}
